@@ -115,6 +115,18 @@ Renderings(n) == {<<"parsed", cuts, h, n>> : cuts \in [1..Len(n) -> BOOLEAN], h 
 CarriersOf(n) ==
   {Sh(i, jk[1], jk[2], n) : i \in 1..NShapes,
                             jk \in {p \in (0..Len(n)) \X (0..Len(n)) : p[1] <= p[2]}} \cup Renderings(n)
+\* relative names (the left parts of chains) on their own
+RelCarriersOf(n) ==
+  LET L == Len(n)
+      rf(o, x) == <<"rflat", o, x>>
+  IN {rf(o, n) : o \in {"vec", "bytes", "slice"}} \cup {<<"rref", rf("vec", n)>>}
+     \cup UNION {{ <<"rchain", rf("vec", SubSeq(n, 1, k)), rf("vec", SubSeq(n, k + 1, L))>>,
+                   <<"rchain", rf("vec", SubSeq(n, 1, k)), rf("bytes", SubSeq(n, k + 1, L))>>,
+                   <<"rref", <<"rchain", rf("vec", SubSeq(n, 1, k)), rf("vec", SubSeq(n, k + 1, L))>>>> }
+                 : k \in 0..L}
+     \cup {<<"rchain", <<"rchain", rf("vec", SubSeq(n, 1, jk[1])), rf("vec", SubSeq(n, jk[1] + 1, jk[2]))>>,
+                       rf("vec", SubSeq(n, jk[2] + 1, L))>>
+            : jk \in {p \in (0..L) \X (0..L) : p[1] <= p[2]}}
 \* one carrier per shape, cut in the middle
 RepC(i, n) == Sh(i, Len(n) \div 2, (Len(n) + 1) \div 2, n)
 
@@ -126,11 +138,12 @@ PairNames == IF Tier = 1
              THEN {<<>>} \cup {<<x>> : x \in {la, lA, lb}}
                     \cup {<<x, y>> : x \in {la, lA, lb}, y \in {la, lA, lb}}
                     \cup {<<la, lb, lA>>, <<lA, lb, la>>, <<lb, lA>>}
-             ELSE CNames
+             ELSE {<<>>, <<la, lb, lA>>, <<lA, lb, la>>} \cup {<<x>> : x \in CLabels}
+                    \cup {<<x, y>> : x \in CLabels, y \in CLabels}
 \* which pairs of shapes go with a pair of names: all of them in turn
 PairPick(x, y, i, j) ==
   LET salt == Len(x) + 2 * Len(y) + SumSeq([q \in 1..Len(x) |-> x[q][1]]) + SumSeq([q \in 1..Len(y) |-> 3 * y[q][1]])
-  IN IF Tier = 1 THEN (i + 5 * j + salt) % 23 = 0 ELSE (i + j + salt) % 3 = 0
+  IN IF Tier = 1 THEN (i + 5 * j + salt) % 23 = 0 ELSE (i + j + salt) % 11 = 0
 
 \* record data with names: the base value and variations of every name
 \* field, every name through every shape at every cut
@@ -160,25 +173,30 @@ CrecVals ==
                  [t |-> "SOA", val |-> Base("SOA")] }
                  \cup (IF Tier = 2 THEN {[t |-> "MX", val |-> Base("MX")], [t |-> "RRSIG", val |-> Base("RRSIG")]} ELSE {})
   IN {[class |-> 1, owner |-> o, ttl |-> 3600, code |-> CodeOf(d.t), t |-> d.t, val |-> d.val] :
-        o \in {<<lA>>, <<lb, lA>>} \cup (IF Tier = 2 THEN {<<lA, lb>>, <<>>} ELSE {}), d \in datas}
+        o \in {<<lA>>, <<lb, lA>>} \cup (IF Tier = 2 THEN {<<lA, lb>>} ELSE {}), d \in datas}
+\* (the executor builds owner shape x data shape as static types: the data
+\* names of a record go through six of the shapes)
+DataShapes == <<1, 5, 7, 11, 14, 23>>
 CrecCarriers(r) ==
   {[oc |-> Sh(i, Clip(jk[1], r.owner), Clip(jk[2], r.owner), r.owner),
-    cs |-> CarryAll(r.t, r.val, IF alt THEN 7 ELSE 1 + ((i + 11) % NShapes), jk)] :
+    cs |-> CarryAll(r.t, r.val, DataShapes[1 + ((i + d) % 6)], jk)] :
      i \in 1..NShapes, jk \in {<<0, 1>>, <<1, 1>>} \cup (IF Tier = 2 THEN {<<1, 2>>} ELSE {}),
-     alt \in IF Tier = 2 THEN BOOLEAN ELSE {FALSE}}
+     d \in IF Tier = 2 THEN {0, 3} ELSE {0}}
 
 \* the table as data, for the I->S recorder
 ASSUME PrintT("LAYOUT " \o ToJson([layout |-> Layout, code |-> TypeCode,
                                     optlayout |-> OptLayout, optcode |-> OptCode]))
 
-Init ==
+InitBase ==
   \/ kind = "label"   /\ t = "" /\ a \in Labels /\ b \in Labels
   \/ kind = "name"    /\ t = "" /\ a \in Names /\ b \in Names
   \/ kind = "charstr" /\ t = "" /\ a \in CharStrs /\ b \in CharStrs
   \/ kind = "rdata"   /\ t \in Types /\ a \in RdVals(t) /\ b \in RdVals(t)
   \/ kind = "record"  /\ t = "" /\ a \in RecVals /\ b \in RecVals
+InitCarriers ==
   \* a name and one of its carriers
   \/ kind = "carrier" /\ t = "" /\ a \in CNames /\ b \in CarriersOf(a)
+  \/ kind = "rcarrier" /\ t = "" /\ a \in CNames /\ b \in RelCarriersOf(a)
   \* two carriers (of two names)
   \/ kind = "cpair"   /\ t = "" /\ \E x, y \in PairNames, i, j \in 1..NShapes :
                                        PairPick(x, y, i, j) /\ a = RepC(i, x) /\ b = RepC(j, y)
@@ -188,8 +206,10 @@ Init ==
   \* a record with owner and data names in carriers, against a flat record
   \/ kind = "crecord" /\ t = "" /\ \E r, s \in CrecVals : \E c \in CrecCarriers(r) :
                                        a = [r |-> r, oc |-> c.oc, cs |-> c.cs] /\ b = s
+Init == InitBase \/ InitCarriers
 Next == FALSE /\ UNCHANGED vars
 Spec == Init /\ [][Next]_vars
+SpecCarriers == InitCarriers /\ [][Next]_vars        \* the carrier part alone (MC_Order_mut*.cfg)
 
 --------------------------------------------------------------------------
 (* the laws, on the specification's own operators *)
@@ -255,6 +275,8 @@ LawCarrier == kind = "carrier" =>
   /\ CarrierLawM(b, Mut)
   /\ CarrierObs(b, Mut).canon = LowerSeq(CarrierObs(b, Mut).compose)
   /\ CarrierObs(b, Mut).len = Len(CarrierObs(b, Mut).compose)
+LawRelCarrier == kind = "rcarrier" =>
+  WfRelTop(b) /\ RelLabels(b) = a /\ RelCarrierLaw(b)
 LawCarrierPair == kind = "cpair" =>
   /\ WfAbs(a) /\ WfAbs(b)
   /\ (NamePairExp(Denote(a), Denote(b)).lcomposed
@@ -316,6 +338,8 @@ EmitRecord == kind = "record" =>
 
 EmitCarrier == kind = "carrier" =>
   PrintT("CASE " \o ToJson([in |-> [kind |-> kind, c |-> b], exp |-> NameObs(a)]))
+EmitRelCarrier == kind = "rcarrier" =>
+  PrintT("CASE " \o ToJson([in |-> [kind |-> kind, c |-> b], exp |-> RelObs(a)]))
 EmitCarrierPair == kind = "cpair" =>
   PrintT("CASE " \o ToJson([in |-> [kind |-> kind, a |-> a, b |-> b],
                             exp |-> NamePairExp(Denote(a), Denote(b))]))
